@@ -31,7 +31,9 @@ COQTY = {
     "ncells": "list (@ncell V)", "cellrows": "list (list (@ncell V))", "dfb": "@dfb V",
     "nested": "nested V", "mi": "mi V", "long": "long V", "zlist": "list Z", "z": "Z",
     "olevel": "option nat", "frame": "frame V", "cell": "cell V", "boolframe": "boolframe",
-    "bools": "list bool", "kser": "@kser V", "kwargs": "bool",
+    "bools": "list bool", "kser": "@kser V", "kwargs": "bool", "olabel": "option name",
+    "tblock": "@tblock V", "kblock": "@kblock V", "keys": "list (Z * Z)", "col1": "list V",
+    "idframe": "list (Z * Z)", "flat": "list V",
 }
 
 
@@ -96,6 +98,18 @@ FUNCS = [
          ret="nested", raises=True),
     dict(py="from_nested_to_2d_array", params=[("X", "nested"), ("return_numpy", "bool")],
          ret="tab2", raises=True, ignore={"columns", "time_index"}),
+    dict(py="from_nested_to_multi_index",
+         params=[("X", "nested"), ("instance_index", "olabel"), ("time_index", "olabel")],
+         ret="mi", raises=True, ignore={"time_index_name", "instance_index_name"}),
+    dict(py="from_3d_numpy_to_multi_index",
+         params=[("X", "arr3"), ("instance_index", "labels"), ("time_index", "labels"),
+                 ("column_names", "onames")],
+         ret="mi", raises=True, ignore={"msg", "index_rename_dict"}),
+    dict(py="from_nested_to_long",
+         params=[("X", "nested"), ("instance_column_name", "labels"),
+                 ("time_column_name", "labels"), ("dimension_column_name", "labels")],
+         ret="long", raises=True, ignore={"col_rename_dict"}),
+    dict(py="from_nested_to_3d_numpy", params=[("X", "nested")], ret="arr3", raises=True),
 ]
 for _f in FUNCS:
     _f["coq"] = "gen_" + _f["py"].lstrip("_")
@@ -111,6 +125,7 @@ class Fn:
         self.ignore = set(cfg.get("ignore", ()))
         self.notes = notes
         self.mi_levels = {}      # python variable -> (role of level 0, role of level 1)
+        self.mi_level_names = {}  # python variable -> (name of level 0, name of level 1)
         self.fresh = 0
         self.pending = []        # raising sub-expressions hoisted in front of the statement
 
@@ -193,6 +208,16 @@ class Fn:
                 return "(n_cols %s)" % t, "names"
         if a == "index" and ty == "mi":
             return t, ("mi_index",)
+        if a == "index" and ty == "nested":
+            return t, ("nested_index",)
+        if a == "names" and ty == ("nested_index",):
+            return None, ("default_index_names",)
+        if a == "index" and ty == "tblock":
+            return "(block_index %s)" % t, "zlist"
+        if a == "loc" and ty == "nested":
+            return t, ("loc", "nested")
+        if a == "iloc" and ty in ("tblock", "mi"):
+            return t, ("iloc", ty)
         if a == "nlevels" and ty == ("mi_index",):
             return "(mi_nlevels %s)" % t, "nat"
         if a == "iloc" and ty == "nested":
@@ -224,6 +249,14 @@ class Fn:
                 return "(np_get2 %s %s)" % (t, self.nat(sl.elts[0], env)), "arr1"
             if ty == ("iloc", "nested") and full == [True, False]:
                 return t, ("nested_col", self.nat(sl.elts[1], env))
+            if ty == ("iloc", "tblock") and full == [True, False]:
+                return "(block_col %s %s)" % (t, self.nat(sl.elts[1], env)), "col1"
+            if ty == ("iloc", "mi") and full == [True, False]:
+                return t, ("mi_col", self.nat(sl.elts[1], env))
+            if ty == ("loc", "nested") and full == [False, True]:
+                i, ti = self.val(sl.elts[0], env)
+                need(ti == "z", "row label of type %r" % (ti,), e)
+                return t, ("locrow", i)
         raise Unsupported("subscript of a value of type %r" % (ty,), e)
 
     def nat(self, e, env):
@@ -276,10 +309,13 @@ class Fn:
                 return None, ("static", not neg)
             if ty in ("labels",):
                 return None, ("static", neg)
-            need(ty in ("onames", "olevel"), "`is None` on a value of type %r" % (ty,), e)
+            need(ty in ("onames", "olevel", "olabel"), "`is None` on a value of type %r" % (ty,), e)
             return ("(negb (is_none %s))" if neg else "(is_none %s)") % t, "bool"
         a, ta = self.expr(e.left, env)
         b, tb = self.expr(rhs, env)
+        if isinstance(op, ast.In) and tb == ("default_index_names",) and ta in ("olabel", "name"):
+            # the modelled nested frames have the default, unnamed RangeIndex: names == [None]
+            return None, ("static", False)
         if is_static(ta) and is_static(tb):
             x, y = ta[1], tb[1]
             r = {ast.Eq: x == y, ast.NotEq: x != y}.get(type(op))
@@ -307,8 +343,20 @@ class Fn:
         need(tc == "bool", "conditional expression test", e)
         a, ta = self.val(e.body, env)
         b, tb = self.val(e.orelse, env)
+        if {ta, tb} == {"ncell", "ser1"}:        # a cell known to be a Series, used as a Series
+            a = a if ta == "ser1" else "(cell_values %s)" % a
+            b = b if tb == "ser1" else "(cell_values %s)" % b
+            ta = tb = "ser1"
         need(ta == tb, "conditional expression of types %r / %r" % (ta, tb), e)
         return "(if %s then %s else %s)" % (c, a, b), ta
+
+    def e_BinOp(self, e, env):
+        if isinstance(e.op, ast.Mult):
+            a, ta = self.val(e.left, env)
+            if ta == "names" and isinstance(e.left, ast.List) and len(e.left.elts) == 1:
+                lab = self.val(e.left.elts[0], env)[0]
+                return "(repeat %s %s)" % (lab, self.nat(e.right, env)), "names"
+        raise Unsupported("binary operator", e)
 
     def e_Dict(self, e, env):
         keys = []
@@ -331,7 +379,15 @@ class Fn:
     def e_List(self, e, env):
         if len(e.elts) == 1 and isinstance(e.elts[0], ast.Starred):
             return self.expr(e.elts[0].value, env)
+        if not e.elts:
+            return "[]", ("list", "?")
         parts = [self.val(x, env) for x in e.elts]
+        if len(parts) == 1 and parts[0][1] == "z":
+            return "[%s]" % parts[0][0], "zlist"
+        if len(parts) == 1 and parts[0][1] == "name":
+            return "[%s]" % parts[0][0], "names"
+        if len(parts) == 2 and [ty for _, ty in parts] == ["zlist", "zlist"]:
+            return None, ("zlists", parts[0][0], parts[1][0])
         if parts and all(ty == ("role_v",) or (isinstance(ty, tuple) and ty[0] == "role")
                          for _, ty in parts):
             return None, ("roles", tuple(ty[1] for _, ty in parts))
@@ -356,6 +412,8 @@ class Fn:
             return t, "z"
         if ty == "names":
             return t, "name"
+        if ty == "bools":
+            return t, "bool"
         if isinstance(ty, tuple) and ty[0] == "list":
             return t, ty[1]
         raise Unsupported("iteration over a value of type %r" % (ty,), e)
@@ -394,8 +452,13 @@ class Fn:
             return t
         if want == "onames" and ty == "none":
             return "None"
-        if want == "olevel" and ty == "none":
+        if want in ("olevel", "olabel") and ty == "none":
             return "None"
+        if want == "olabel" and isinstance(ty, tuple) and ty[0] == "str":
+            return "(Some (NStr [%s]))" % "; ".join(str(ord(ch)) for ch in ty[1])
+        if want == "labels" and (ty in ("labels", "none") or
+                                 (isinstance(ty, tuple) and ty[0] == "str")):
+            return None
         raise Unsupported("%s: expected %r, found %r" % (what, want, ty))
 
     def call_args(self, call, names):
@@ -438,7 +501,7 @@ class Fn:
         if src == "len":
             need(len(e.args) == 1 and not e.keywords, "len arity", e)
             t, ty = self.val(e.args[0], env)
-            need(ty in ("names", "bools", "zlist", "ncells") or
+            need(ty in ("names", "bools", "zlist", "ncells", "idframe", "keys") or
                  (isinstance(ty, tuple) and ty[0] == "list"), "len of %r" % (ty,), e)
             return "(length %s)" % t, "nat"
         if src == "isinstance":
@@ -460,6 +523,15 @@ class Fn:
         if src == "pd.DataFrame":
             if not e.args and not e.keywords:
                 return "pd_DataFrame_empty", "dfb"
+            if len(e.args) == 1 and isinstance(e.args[0], ast.Dict) \
+                    and [k.arg for k in e.keywords] == ["index"]:
+                d = e.args[0]
+                need(len(d.keys) == 1 and isinstance(d.keys[0], ast.Constant), "DataFrame dict", e)
+                v, tv = self.val(d.values[0], env)
+                i, ti = self.val(e.keywords[0].value, env)
+                need(tv == "flat" and isinstance(ti, tuple) and ti[0] == "index3",
+                     "DataFrame({..: %r}, index=%r)" % (tv, ti), e)
+                return "(mk_series3 %s %s)" % (i, v), ("series3", ti[1])
             need(len(e.args) == 1 and not e.keywords, "pd.DataFrame arguments", e)
             t, ty = self.val(e.args[0], env)
             if ty in ("dfb", "tab2"):
@@ -468,9 +540,49 @@ class Fn:
                 return "(df_of_cells %s)" % t, "dfb"
             raise Unsupported("pd.DataFrame of %r" % (ty,), e)
         if src == "pd.Series":
-            need(len(e.args) == 1 and not e.keywords, "pd.Series arguments", e)
+            need(len(e.args) == 1, "pd.Series arguments", e)
+            kws = sorted(k.arg or "**" for k in e.keywords)
             t, ty = self.val(e.args[0], env)
+            if ty == "ncell" and kws == ["name"]:        # a Series from an ndarray cell
+                return "(cell_values %s)" % t, "ser1"
+            if ty == "names" and kws == ["dtype"] and u(e.keywords[0].value) == "object":
+                return t, "names"
+            need(not kws, "pd.Series keywords", e)
             return self.coerce(t, ty, "ncells", "pd.Series(...)"), "ncells"
+        if src == "pd.concat":
+            need(len(e.args) == 1, "pd.concat arguments", e)
+            kws = {k.arg: k.value for k in e.keywords}
+            t, ty = self.val(e.args[0], env)
+            if ty in (("list", "ser1"), "ncells") and list(kws) == ["axis"] \
+                    and self.expr(kws["axis"], env)[1] == ("static", 1):
+                if ty == "ncells":
+                    t = "(map cell_values %s)" % t
+                return "(pd_concat_axis1 %s)" % t, "tblock"
+            if ty == ("list", "kblock") and not kws:
+                return "(pd_concat_rows %s)" % t, "kblock"
+            if ty == ("list", "long") and list(kws) == ["ignore_index"] \
+                    and self.expr(kws["ignore_index"], env)[1] == ("static", True):
+                return "(long_concat %s)" % t, "long"
+            raise Unsupported("pd.concat of %r" % (ty,), e)
+        if src == "pd.MultiIndex.from_product":
+            need(len(e.args) == 1 and [k.arg for k in e.keywords] == ["names"], "from_product", e)
+            lst = e.args[0]
+            if isinstance(lst, ast.List) and len(lst.elts) == 3:
+                parts = [self.val(x, env) for x in lst.elts]
+                need(all(ty == ("list", "nat") for _, ty in parts), "from_product levels", e)
+                nm = e.keywords[0].value
+                need(isinstance(nm, ast.List) and len(nm.elts) == 3
+                     and all(isinstance(x, ast.Constant) and isinstance(x.value, str)
+                             for x in nm.elts), "from_product names", e)
+                names = tuple(x.value for x in nm.elts)
+                need(len(set(names)) == 3, "from_product names", e)
+                return "(mi_from_product3 %s %s %s)" % tuple(t for t, _ in parts), ("index3", names)
+            lv = self.expr(lst, env)[1]
+            need(isinstance(lv, tuple) and lv[0] == "zlists", "from_product levels", e)
+            nm = e.keywords[0].value
+            need(isinstance(nm, ast.List) and all(isinstance(x, ast.Name) and x.id in self.ignore
+                                                  for x in nm.elts), "from_product names", e)
+            return "(mi_from_product2 %s %s)" % lv[1:], "keys"
         if isinstance(f, ast.Attribute):
             return self.method(e, env)
         raise Unsupported("call of " + src, e)
@@ -498,13 +610,22 @@ class Fn:
         defaults = dict(zip([a.arg for a in fn_node.args.args][-len(fn_node.args.defaults):]
                             if fn_node.args.defaults else [], fn_node.args.defaults))
         out = []
-        mi_arg_levels = None
+        mi_arg_levels = mi_arg_names = None
         for p, pty in cfg["params"]:
             node = args.get(p, defaults.get(p))
             need(node is not None, "missing argument %s of %s" % (p, cfg["py"]), e)
             t, ty = self.val(node, env)
             if pty == "mi" and isinstance(node, ast.Name):
                 mi_arg_levels = self.mi_levels.get(node.id)
+                mi_arg_names = self.mi_level_names.get(node.id)
+            if pty == "labels":
+                self.coerce(t, ty, "labels", "argument %s of %s" % (p, cfg["py"]))
+                continue
+            if pty == "olevel" and isinstance(ty, tuple) and ty[0] == "str":
+                need(mi_arg_names is not None and ty[1] in mi_arg_names,
+                     "cannot resolve index level named %r" % (ty[1],), e)
+                out.append("(Some %d%%nat)" % mi_arg_names.index(ty[1]))
+                continue
             if pty == "none":
                 need(ty == "none", "argument %s of %s is modelled as None only" % (p, cfg["py"]), e)
                 continue
@@ -518,7 +639,21 @@ class Fn:
                 continue
             out.append(self.coerce(t, ty, pty, "argument %s of %s" % (p, cfg["py"])))
         text = "(%s %s)" % (cfg["coq"], " ".join(out))
-        return text, (("res", cfg["ret"]) if cfg.get("raises") else cfg["ret"])
+        rty = cfg["ret"]
+        if cfg["py"] == "from_nested_to_multi_index":
+            # level names of the result: the given names, else the callee's defaults
+            dflt = default_level_names(fn_node)
+            given = []
+            for k, p in enumerate(("instance_index", "time_index")):
+                node = args.get(p, defaults.get(p))
+                if isinstance(node, ast.Constant) and isinstance(node.value, str):
+                    given.append(node.value)
+                elif isinstance(node, ast.Constant) and node.value is None:
+                    given.append(dflt[k])
+                else:
+                    given.append(None)
+            rty = ("mi_names", tuple(given))
+        return text, (("res", rty) if cfg.get("raises") else rty)
 
     def method(self, e, env):
         f = e.func
@@ -534,6 +669,13 @@ class Fn:
         if m == "reshape" and ty == "rows2" and not kw and len(A) == 3:
             a, b, c = (self.nat(x, env) for x in A)
             return "(np_reshape3 %s %s %s (np_ravel2 %s))" % (a, b, c, t), "arr3"
+        if m == "flatten" and ty == "arr3" and not A and not kw:
+            return "(np_ravel3 %s)" % t, "flat"
+        if m == "unstack" and isinstance(ty, tuple) and ty[0] == "series3" and not A \
+                and list(kw) == ["level"]:
+            lv = self.expr(kw["level"], env)[1]
+            need(isinstance(lv, tuple) and lv[0] == "str" and lv[1] in ty[1], "unstack level", e)
+            return "(unstack3 %d%%nat %s)" % (ty[1].index(lv[1]), t), "mi"
         if m == "swapaxes" and ty == "arr3" and not kw and len(A) == 2:
             return "(np_swapaxes3 %s %s %s)" % (self.nat(A[0], env), self.nat(A[1], env), t), "arr3"
         if m == "groupby" and ty == "mi" and not A and list(kw) == ["level"]:
@@ -588,6 +730,26 @@ class Fn:
             return "(count_true %s)" % t, "nat"
         if m == "tolist" and isinstance(ty, tuple) and ty[0] == "nested_col" and not A and not kw:
             return "(nested_col_tolist %s %s)" % (t, ty[1]), "rows2"
+        if m == "get_level_values" and ty == ("nested_index",) and len(A) == 1 and not kw:
+            a0 = self.expr(A[0], env)[1]
+            need(a0 == ("static", -1) or a0 in ("olabel", "name"), "level of a nested frame", e)
+            return t, ("nlevelvals",)
+        if m == "unique" and ty == ("nlevelvals",) and not A and not kw:
+            return "(nested_index_unique %s)" % t, "zlist"
+        if m == "iteritems" and isinstance(ty, tuple) and ty[0] == "locrow" and not A and not kw:
+            return "(nested_loc_row_items %s %s)" % (t, ty[1]), ("list", ("tuple", ("name", "ncell")))
+        if m == "ffill" and ty == "col1" and not A and not kw:
+            return "(col_ffill %s)" % t, "col1"
+        if m == "to_frame" and ty == ("mi_index",) and not A and list(kw) == ["index"] \
+                and self.expr(kw["index"], env)[1] == ("static", False):
+            return "(mi_index_frame %s)" % t, "idframe"
+        if m == "to_numpy" and isinstance(ty, tuple) and ty[0] == "mi_col" and not A and not kw:
+            return "(mi_col_values %s %s)" % (t, ty[1]), "arr1"
+        if m == "assign" and ty == "idframe" and not A and list(kw) == ["column", "value"]:
+            lab, tl = self.val(kw["column"], env)
+            v, tv = self.val(kw["value"], env)
+            need(tl == "names" and tv == "arr1", "assign(column=%r, value=%r)" % (tl, tv), e)
+            return "(ids_assign %s %s %s)" % (t, lab, v), "long"
         if m == "pivot" and ty == "long" and not A and sorted(kw) == ["columns", "index", "values"]:
             idx = self.expr(kw["index"], env)[1]
             need(isinstance(idx, tuple) and idx[0] == "roles" and len(idx[1]) == 2
@@ -637,7 +799,17 @@ class Fn:
         return out
 
     def has_raise(self, stmts):
-        return any(isinstance(n, (ast.Raise, ast.Assert)) for st in stmts for n in ast.walk(st))
+        """a raise / assert, a call of a translated function that may raise, or container(**kw)"""
+        for st in stmts:
+            for n in ast.walk(st):
+                if isinstance(n, (ast.Raise, ast.Assert)):
+                    return True
+                if isinstance(n, ast.Call):
+                    if isinstance(n.func, ast.Name) and BY_PY.get(n.func.id, {}).get("raises"):
+                        return True
+                    if any(k.arg is None for k in n.keywords):
+                        return True
+        return False
 
     def terminal(self, stmts):
         if not stmts:
@@ -655,14 +827,35 @@ class Fn:
             return False
         return not any(isinstance(n, (ast.Return, ast.Raise)) for n in ast.walk(st))
 
+    def labels_only_rename(self, st, env):
+        """`if <test on label variables>: x = x.rename(columns=<labels>)` (or rename_axis(index=))
+        on a long table / multi-index frame: changes labels the Coq containers do not carry"""
+        if not (isinstance(st, ast.If) and not st.orelse and len(st.body) == 1):
+            return False
+        b = st.body[0]
+        if not (isinstance(b, ast.Assign) and len(b.targets) == 1 and isinstance(b.targets[0], ast.Name)
+                and isinstance(b.value, ast.Call) and isinstance(b.value.func, ast.Attribute)
+                and isinstance(b.value.func.value, ast.Name)
+                and b.value.func.value.id == b.targets[0].id and not b.value.args
+                and len(b.value.keywords) == 1):
+            return False
+        x, meth, kw = b.targets[0].id, b.value.func.attr, b.value.keywords[0]
+        if x not in env or not isinstance(kw.value, ast.Name) or kw.value.id not in self.ignore:
+            return False
+        ok = (env[x][1] == "long" and meth == "rename" and kw.arg == "columns") or \
+             (env[x][1] == "mi" and meth == "rename_axis" and kw.arg == "index")
+        used = {n.id for n in ast.walk(st.test) if isinstance(n, ast.Name)}
+        return ok and used <= (self.ignore | {"len"})
+
     def ret(self, t, ty, node):
         want = self.cfg["ret"]
         if is_res(ty):
             need(self.cfg.get("raises"), "raising call in a total function", node)
-            if ty[1] == want:
+            if ty[1] == want or (isinstance(ty[1], tuple) and ty[1][0] in ("mi_levels", "mi_names")
+                                 and want == "mi"):
                 return t
             return "(rbind %s (fun r_ => Ok %s))" % (t, self.coerce("r_", ty[1], want, "return"))
-        if isinstance(ty, tuple) and ty[0] == "mi_levels":
+        if isinstance(ty, tuple) and ty[0] in ("mi_levels", "mi_names"):
             ty = "mi"
         t = self.coerce(t, ty, want, "return value")
         return ("Ok %s" % t) if self.cfg.get("raises") else t
@@ -718,6 +911,22 @@ class Fn:
             self.notes.append("%s: `except KeyError` branch not modelled (1x1 frame holding a "
                               "1-point series with a non-zero-based index)" % self.cfg["py"])
             return self.seq(list(st.body) + rest, env, k, ind)
+        if self.labels_only_rename(st, env):
+            self.notes.append("%s: not modelled (labels only): %s"
+                              % (self.cfg["py"], " ".join(u(st).split())[:110]))
+            return go(env)
+        if isinstance(st, ast.Expr) and isinstance(st.value, ast.Call) \
+                and isinstance(st.value.func, ast.Attribute) and st.value.func.attr == "append" \
+                and isinstance(st.value.func.value, ast.Name) and len(st.value.args) == 1 \
+                and not st.value.keywords:
+            d = st.value.func.value.id
+            need(d in env and isinstance(env[d][1], tuple) and env[d][1][0] == "list",
+                 "append to %s" % d, st)
+            t, ty = self.val(st.value.args[0], env)
+            need(env[d][1][1] in ("?", ty), "append of %r to a list of %r" % (ty, env[d][1][1]), st)
+            env = dict(env)
+            env[d] = (env[d][0], ("list", ty))
+            return "%slet %s := (%s ++ [%s]) in\n%s" % (pad, env[d][0], env[d][0], t, go(env))
         if isinstance(st, ast.Assign):
             need(len(st.targets) == 1, "chained assignment", st)
             return self.assign(st.targets[0], st.value, env, go, ind, st)
@@ -742,6 +951,10 @@ class Fn:
             if isinstance(inner, tuple) and inner[0] == "mi_levels":
                 self.mi_levels[tg.id] = inner[1]
                 inner = "mi"
+            if isinstance(inner, tuple) and inner[0] == "mi_names":
+                self.mi_level_names[tg.id] = inner[1]
+                inner = "mi"
+                ty = ("res", "mi") if is_res(ty) else "mi"
             if inner == "labels" or inner == "none":
                 env[tg.id] = (None, inner)
                 return go(env)
@@ -749,7 +962,9 @@ class Fn:
                 need(not is_res(ty), "raising list of cells", st)
                 t = self.coerce(t, inner, "ncells", "list of cells")   # 1-D arrays / Series as cells
                 inner = ty = "ncells"
-            coqty(inner)        # must be a run-time type
+            if inner != ("list", "?") and not (isinstance(inner, tuple)
+                                               and inner[0] in ("index3", "series3")):
+                coqty(inner)        # must be a run-time type
             env[tg.id] = (cname(tg.id), inner)
             return self.let(cname(tg.id), t, ty, go, env, ind)
         if isinstance(tg, ast.Tuple):
@@ -768,6 +983,17 @@ class Fn:
             t = self.coerce(t, ty, "ncells", "column assigned to %s[...]" % d)
             return self.let(env[d][0], "(df_setcol %s %s %s)" % (env[d][0], lab, t), "dfb", go,
                             env, ind)
+        if isinstance(tg, ast.Subscript) and isinstance(tg.value, ast.Attribute) \
+                and tg.value.attr == "iloc" and isinstance(tg.value.value, ast.Name):
+            d = tg.value.value.id
+            need(d in env and env[d][1] == "tblock" and isinstance(tg.slice, ast.Tuple)
+                 and len(tg.slice.elts) == 2 and u(tg.slice.elts[0]) == ":",
+                 "positional column assignment", st)
+            j = self.nat(tg.slice.elts[1], env)
+            t, ty = self.val(value, env)
+            need(ty == "col1", "column of type %r" % (ty,), st)
+            return self.let(env[d][0], "(block_set_col %s %s %s)" % (env[d][0], j, t), "tblock",
+                            go, env, ind)
         if isinstance(tg, ast.Attribute) and isinstance(tg.value, ast.Name) \
                 and tg.attr in ("columns", "index"):
             d = tg.value.id
@@ -777,8 +1003,17 @@ class Fn:
                 self.expr(value, env) if tg.attr == "index" and u(value) != "X.index" else None
                 self.notes.append("%s: not modelled (labels only): %s" % (self.cfg["py"], u(st)))
                 return go(env)
+            if dty == "tblock" and tg.attr == "index":
+                t, ty = self.val(value, env)
+                need(ty == "keys", "index of type %r" % (ty,), st)
+                env[d] = (dn, "kblock")
+                return self.let(dn, "(block_set_index %s %s)" % (dn, t), "kblock", go, env, ind)
             need(tg.attr == "columns", "assignment to .index of %r" % (dty,), st)
             t, ty = self.val(value, env)
+            if dty == "kblock":
+                t = self.coerce(t, ty, "names", "column labels")
+                env[d] = (dn, "mi")
+                return self.let(dn, "(mi_of_rows %s %s)" % (dn, t), "mi", go, env, ind)
             t = self.coerce(t, ty, "names", "column labels")
             if dty == "nested":
                 return self.let(dn, "(nested_set_columns %s %s)" % (dn, t), dty, go, env, ind)
@@ -870,11 +1105,14 @@ class Fn:
         def kk(env3):
             for n in acc:
                 types[n] = env3[n][1]
-                need(env3[n][1] == env[n][1], "loop changes the type of %s" % n, st)
+                need(env3[n][1] == env[n][1] or env[n][1] == ("list", "?"),
+                     "loop changes the type of %s" % n, st)
             return " " * (ind + 4) + self.tuple_val(acc, env3)
         body = self.seq(list(st.body), env2, kk, ind + 4)
         apat = self.tuple_pat(acc)
         env4 = dict(env)
+        for n in acc:
+            env4[n] = (env[n][0], types[n])
         text = "%slet %s := fold_left (fun %s %s =>\n%s)\n%s  %s %s in\n" % (
             pad, apat, apat, pat, body, pad, it, self.tuple_val(acc, env))
         return text + go(env4)
@@ -890,8 +1128,8 @@ class Fn:
         env = {}
         binders = []
         for p, ty in cfg["params"]:
-            if ty == "none":
-                env[p] = (None, "none")
+            if ty in ("none", "labels"):
+                env[p] = (None, ty)
             elif isinstance(ty, tuple) and ty[0] == "role":
                 env[p] = (None, ty)
             else:
@@ -903,6 +1141,19 @@ class Fn:
             raise Unsupported("%s can fall off its end" % cfg["py"])
         body = self.seq(list(fn.body), env, fell_off, 2)
         return "Definition %s %s : %s :=\n%s.\n" % (cfg["coq"], " ".join(binders), rty, body)
+
+
+def default_level_names(fn_node):
+    """the literals from_nested_to_multi_index assigns to instance_index_name / time_index_name"""
+    out = {}
+    for n in ast.walk(fn_node):
+        if isinstance(n, ast.Assign) and len(n.targets) == 1 and isinstance(n.targets[0], ast.Name) \
+                and n.targets[0].id in ("instance_index_name", "time_index_name") \
+                and isinstance(n.value, ast.Constant) and isinstance(n.value.value, str):
+            need(n.targets[0].id not in out, "two default level names", n)
+            out[n.targets[0].id] = n.value.value
+    need(set(out) == {"instance_index_name", "time_index_name"}, "default level names not found")
+    return out["instance_index_name"], out["time_index_name"]
 
 
 HEADER = """(* GENERATED by /verif/translator/panel_c15.py from %s -- do not edit, never committed *)
